@@ -1,2 +1,9 @@
 import ParryModel.C08.Theorems
+#print axioms C08.empty_inv
 #print axioms C08.remove_preserves_inv
+#print axioms C08.preUpdateOrInsert_preserves_inv
+#print axioms C08.splitRoot_preserves_inv
+#print axioms C08.refit_preserves_inv
+#print axioms C08.step_preserves_inv
+#print axioms C08.run_preserves_inv
+#print axioms C08.step_total
